@@ -300,13 +300,13 @@ pub fn check(ctx: &mut Ctx) {
     ];
     let sets = type_sets();
     let total = sets.len() as u64 * PARTIES.len() as u64 * 2 * 3 * 2 * 2;
-    let stride = ctx.tier.pick(11u64, 1u64);
+    let stride = ctx.tier.pick(4u64, 1u64);
     let seed = ctx.seed;
     let n = total / stride;
     run_indexed(ctx, "grid", n, &|k| nth_ast(((k * stride) + (seed % stride)) % total, &sets).map(|ast| OptCase { ast, reqs: None }), &check_case);
     ctx.exhaustive = false;
     ctx.extra.insert("grid_part".into(), json!({"rules_total": total, "rules_enumerated": n, "stride": stride, "requests_per_rule": grid().len(), "exhaustive": stride == 1}));
-    let n = ctx.tier.pick(60_000, 2_000_000);
+    let n = ctx.tier.pick(300_000, 3_000_000);
     drive(ctx, "domains", n, 120, &decode_domains, &check_case);
 }
 
